@@ -265,7 +265,7 @@ fn atom_family(id: &str) -> String {
 
 impl Check for C02 {
     fn units(&self, ctx: &Ctx) -> usize {
-        atom_items(ctx).len().div_ceil(BATCH * BATCHES_PER_UNIT) + corpus::b_units(ctx) + 1
+        atom_items(ctx).len().div_ceil(BATCH * BATCHES_PER_UNIT) + corpus::b_units(ctx) + 1 + ASYNC_UNITS
     }
 
     fn run_unit(&self, ctx: &Ctx, idx: usize) -> UnitResult {
@@ -297,6 +297,8 @@ impl Check for C02 {
             if let Some(it) = slice.first() {
                 r.sample(json!({"cell": it.id, "program": it.human, "schedules": ["t1", "t2", "t3", "t5", "t7", "t100", "every-step"]}));
             }
+        } else if idx > na + corpus::b_units(ctx) {
+            async_unit(&mut r, idx - na - corpus::b_units(ctx) - 1);
         } else if idx == na + corpus::b_units(ctx) {
             let progs = module_programs();
             run_unit_progs(&mut r, &progs, true, &|id: &str| id.to_string());
@@ -315,6 +317,16 @@ impl Check for C02 {
 
     fn replay(&self, _ctx: &Ctx, case: &Value) -> UnitResult {
         let mut r = UnitResult::default();
+        if case["async"].as_bool() == Some(true) {
+            let id = case["id"].as_str().unwrap_or("").to_string();
+            for k in 0..ASYNC_UNITS {
+                let mut part = UnitResult::default();
+                async_unit(&mut part, k);
+                part.violations.retain(|v| v.case["id"].as_str() == Some(id.as_str()));
+                r.merge(part);
+            }
+            return r;
+        }
         let ids: Vec<String> = case["ids"].as_array().map(|a| a.iter().filter_map(|x| x.as_str().map(|s| s.to_string())).collect()).unwrap_or_default();
         if ids.is_empty() {
             return r;
@@ -332,5 +344,86 @@ impl Check for C02 {
             run_unit_progs(&mut r, &[prog], items.len() == 1, &atom_family);
         }
         r
+    }
+}
+
+
+// ───────────────────── programs that suspend to the host (saved state must root what it needs) ─────────────────────
+
+const ASYNC_UNITS: usize = 8;
+
+/// The await-position and concurrent programs of C07, run with a scripted host under GC
+/// thresholds 1,2,3,5,7 and host-forced collections after every host action, each compared
+/// with the same program and host policy with the collector off; H1 must stay silent.
+fn async_unit(r: &mut UnitResult, k: usize) {
+    use crate::asynchost::{self, Policy};
+    let atoms: Vec<(String, &'static str)> = asynchost::AWAIT_ATOMS
+        .iter()
+        .map(|(n, b)| (format!("await.{}", n), *b))
+        .chain(asynchost::CONCURRENT_ATOMS.iter().map(|(n, b)| (format!("concurrent.{}", n), *b)))
+        .collect();
+    let mine: Vec<(String, &'static str)> = atoms.into_iter().enumerate().filter(|(i, _)| i % ASYNC_UNITS == k).map(|(_, a)| a).collect();
+    let lim = Limits { wall: std::time::Duration::from_secs(400), address_space: 3 << 30, stack: 0 };
+    let todo = mine.clone();
+    let exit = isolate::run(&lim, move || {
+        for (ai, (_, body)) in todo.iter().enumerate() {
+            let src = asynchost::program(body, true);
+            for deferred in [false, true] {
+                let base = Policy { deferred_default: deferred, gc_threshold: Some(0), ..Default::default() };
+                let reference = asynchost::run(&src, &base);
+                for t in [1usize, 2, 3, 5, 7] {
+                    for collect in [false, true] {
+                        let p = Policy { deferred_default: deferred, gc_threshold: Some(t), collect, ..Default::default() };
+                        let run = asynchost::run(&src, &p);
+                        isolate::emit(&format!(
+                            "{}\u{2}{}\u{2}{}\u{2}{}\u{2}{}\u{2}{}\u{3}",
+                            ai,
+                            format!("{}t{}{}", if deferred { "deferred+" } else { "immediate+" }, t, if collect { "+collect" } else { "" }),
+                            run.outcome,
+                            reference.outcome,
+                            run.stale_events.join(","),
+                            run.suspensions
+                        ));
+                    }
+                }
+            }
+        }
+        String::new()
+    });
+    let text = match exit {
+        Exit::Ok(t) | Exit::Signal(_, t) | Exit::Status(_, t) | Exit::Timeout(t) => t,
+    };
+    for rec in text.split('\u{3}') {
+        let f: Vec<&str> = rec.split('\u{2}').collect();
+        if f.len() < 6 {
+            continue;
+        }
+        let Ok(ai) = f[0].parse::<usize>() else { continue };
+        r.evaluations += 1;
+        if f[5].parse::<u64>().unwrap_or(0) > 0 {
+            r.nontrivial += 1;
+        }
+        r.stat("async_host_runs", 1);
+        let id = &mine[ai].0;
+        if f[2] != f[3] && !id.contains("race-winner") {
+            r.violate(
+                format!("async-schedule|{}|{}|={}", id, f[1], hash_hex(f[2])),
+                format!("{} with a scripted host under GC schedule {}: {} — with the collector off: {}", id, f[1], truncate(f[2], 200), truncate(f[3], 200)),
+                json!({"id": id, "async": true}),
+            );
+        }
+        if !f[4].is_empty() {
+            let mut ev: Vec<&str> = f[4].split(',').collect();
+            ev.sort();
+            ev.dedup();
+            r.violate(
+                format!("async-stale|{}|{}", id, ev.join(",")),
+                format!("{} with a scripted host under GC schedule {}: a reclaimed object was used (H1 events {})", id, f[1], ev.join(" ")),
+                json!({"id": id, "async": true}),
+            );
+        }
+    }
+    if let Some((id, body)) = mine.first() {
+        r.sample(json!({"async_program": id, "source": crate::asynchost::program(body, true), "schedules": "GC thresholds 1,2,3,5,7 x collect after every host action x immediate / deferred answers, vs collector off"}));
     }
 }
